@@ -342,7 +342,8 @@ class Recorder:
                 m = wire.parse(data)
                 qu = (not m.is_response) and any(q.cls & 0x8000 for q in m.questions)
                 tc = bool(m.tc)
-                probe = bool(m.authorities)
+                # a probe with a QM question among its questions: that part is answered by multicast at once, whatever was multicast before
+                probe = bool(m.authorities) and any(not (q.cls & 0x8000) for q in m.questions)
             except wire.WireError:
                 qu = tc = probe = False
             if qu and mode == 'allnq':
